@@ -198,6 +198,14 @@ pub fn gen_stmt(r: &mut Rng, v: &mut Vars, depth: u32) -> String {
                 _ => if is_b { format!("({} {} {})", bind_kw(r), t, gen_bool(r, v, depth)) } else { format!("({} {} (ewma {} {}))", bind_kw(r), t, r.range(0, 10), gen_num(r, v, depth)) },
             }
         }
+        4 if r.chance(1, 12) => {
+            // the target of a bind is itself a bind: (:= (:= x e1) e2)
+            let mut pool: Vec<String> = vec![];
+            for (n, b, _) in v.reports.iter().chain(v.controls.iter()) { if !*b { pool.push(n.clone()); } }
+            if pool.is_empty() { return "(report)".into(); }
+            let t = r.pick(&pool).clone();
+            format!("({} ({} {} {}) {})", bind_kw(r), bind_kw(r), t, gen_num(r, v, 1), gen_num(r, v, depth))
+        }
         4 => {
             // bind a (possibly new) local
             let fresh = v.locals.len() < 5 && r.chance(1, 2);
@@ -356,6 +364,17 @@ pub fn run_c10(tier: &str, seed: u64, out: &mut dyn Write) {
             emit(out, format!("(def {}) (when true (report))", txt).as_bytes(), &[]);
             emit(out, format!("(def (Report (x 0)) (c 1)) (when true (:= Report.x {}))", txt).as_bytes(), &[]);
             emit(out, format!("(def (Report (x 0)) (c 1)) (when true (:= c (+ {} 1)))", txt).as_bytes(), &[]);
+        }
+    }
+    // undeclared locals bound to each other in chains and rings, then given a value (type resolution must end)
+    for k in 1..=5usize {
+        for ring in [false, true] {
+            for tail in ["(:= a0 1)", "(:= a0 true)", "(:= Report.x a0)", "(:= a0 (+ a0 1))", ""] {
+                let mut body = String::new();
+                for i in 0..k { let j = if i + 1 < k { i + 1 } else if ring { 0 } else { k }; body.push_str(&format!("(:= a{} a{}) ", i, j)); }
+                emit(out, format!("(def (Report (x 0))) (when true {}{} (report))", body, tail).as_bytes(), &[]);
+                emit(out, format!("(def (Report (x 0))) (when true {} (report)) (when true {} (report))", body, tail).as_bytes(), &[]);
+            }
         }
     }
     // text the parser stops at, with a multi-byte character placed at every offset around the sizes
@@ -567,10 +586,11 @@ pub fn layout_variant(r: &mut Rng, toks: &[String]) -> String {
             // ordinary text, an empty comment, a blank one, one that looks like code; among statements several in a row
             let ncom = if at_stmt && r.chance(1, 4) { 2 + r.below(2) } else { 1 };
             for _ in 0..ncom {
-                match r.below(6) {
+                match r.below(7) {
                     0 => s.push_str("#\n"),
                     1 => s.push_str("#  \t \n"),
                     2 => s.push_str("# (when true (report))\n"),
+                    3 => s.push_str("# old:\r(:= Cwnd 1) \r (report)\n"),
                     _ => s.push_str(&format!("# comment {} (with parens) := x\n", r.below(100))),
                 }
                 s.push_str(&ws_run(r, 0));
